@@ -12,7 +12,7 @@ NAMES = ["x", "y"]
 TOKENS = []
 for n in NAMES:
     TOKENS += ["D " + n, "DL " + n, "DO " + n, "DF " + n, "A " + n, "O " + n, "R " + n, "AL " + n, "AO " + n, "AOR " + n, "DOR " + n, "ALR " + n]
-TOKENS += ["D _", "DL _", "DO _", "R _", "A _", "O _", "DF _", "AOR _", "D _u", "R _u", "DS x", "DS y"]
+TOKENS += ["D _", "DL _", "DO _", "R _", "A _", "O _", "DF _", "AOR _", "D _u", "R _u", "DS x", "DS y", "RS x", "RS y"]
 TOKENS += ["{", "P x{", "P _{", "FOR x{", "FOR _{", "FORP y{", "}"]
 # declarations whose value is null / false / 0 / "" / [] / {}: the name is declared all the same (not part of the exhaustive product)
 EXTRA = ["DV%d %s" % (i, n) for i in range(6) for n in NAMES]
@@ -69,6 +69,9 @@ def build(seq):
             cur.append(A.OpAssign("+", V(n), I(1000)))
         elif op == "R":
             cur.append(show(V(n)))
+        elif op == "RS":
+            # the name is read through the object-literal shorthand `{x}`
+            cur.append(show(A.Prop(A.ObjectE([A.Single(V(n), False, False)]), n, False)))
         elif t == "{":
             stack.append(("block", [], None))
         elif op == "P":
